@@ -606,6 +606,7 @@ static void epilogue_bigelem(void)
 }
 
 /* ======================= objects past 64 KiB / 128 KiB (growth policies with thresholds) ======================= */
+#define P_BIGBUF ((size_t)100 << 10)
 static cstl_vector_t BV;
 static size_t bv_size;
 static uint32_t bv_val(size_t i) { return (uint32_t)(i * 2654435761u + 12345u); }
@@ -637,13 +638,34 @@ static void bigvec_resize(size_t n)
     }
     bigvec_audit("resize");
 }
+/* a reserve that did not grow has not let go of the buffer it had either: the event log of the call shows no free of it and no
+ * realloc that took it over (the audit afterwards reads the content through it) */
+static void big_reserve_kept(const char *key, const void *old, size_t oldsz)
+{
+    int e;
+    if (old == NULL) return;
+    for (e = 0; e < vrt_ev_n(); e++) {
+        const struct vrt_aev *ev = vrt_ev(e);
+        if (ev->p == old && (ev->kind == 'f' || (ev->kind == 'r' && !ev->failed)))
+            vrt_fail(key, "a reserve that failed gave the buffer the container still uses back to the allocator inside the call");
+    }
+    if (oldsz >= P_BIGBUF) COUNT("bigreserve.failed-from-big-buffer.old-buffer-untouched");
+}
 static void bigvec_reserve(size_t n)
 {
     const size_t before = cstl_vector_capacity(&BV);
+    size_t oldsz = 0;
+    const void *const old = cstl_vector_data(&BV) != NULL ? vrt_lib_block(cstl_vector_data(&BV), &oldsz) : NULL;
     CALL_BEGIN("vector.reserve", "%ld (cap %ld, big)", n, before);
     cstl_vector_reserve(&BV, n);
-    if (cstl_vector_capacity(&BV) != before) VRT_CHECK(cstl_vector_capacity(&BV) >= n, "faults.bigvector.reserve.cap", "capacity below the request");
-    else if (n > before) { require_fired("vector.reserve", "no growth"); count_fail("vector.reserve"); }
+    if (cstl_vector_capacity(&BV) != before) {
+        VRT_CHECK(cstl_vector_capacity(&BV) >= n, "faults.bigvector.reserve.cap", "capacity below the request");
+        if (oldsz >= P_BIGBUF) COUNT("bigreserve.vector.grew-from-big-buffer");
+    } else if (n > before) {
+        require_fired("vector.reserve", "no growth"); count_fail("vector.reserve");
+        big_reserve_kept("faults.bigvector.reserve.failed-call-released-storage", old, oldsz);
+        if (oldsz >= P_BIGBUF) COUNT("bigreserve.vector.failed-from-big-buffer");
+    }
     bigvec_audit("reserve");
 }
 static void bigvec_shrink(void)
@@ -675,7 +697,7 @@ static void bigstr_audit(const char *after)
     if (cstl_string_size(&BS) != bs_len) vrt_fail(key, "size %zu, model %zu", cstl_string_size(&BS), bs_len);
     if (memcmp(cstl_string_str(&BS), bs_ref, bs_len + 1) != 0) vrt_fail(key, "characters (or the terminator) differ from the reference");
     if (cstl_string_capacity(&BS) > 0)
-        VRT_CHECK(vrt_lib_block(cstl_string_str(&BS), &bs) != NULL && bs >= cstl_string_capacity(&BS) + 1, "faults.bigstring.storage",
+        VRT_CHECK(vrt_lib_block(cstl_string_data(&BS) != NULL ? cstl_string_data(&BS) : cstl_string_str(&BS), &bs) != NULL && bs >= cstl_string_capacity(&BS) + 1, "faults.bigstring.storage",
                   "capacity %zu has no storage of that size behind it (block of %zu bytes)", cstl_string_capacity(&BS), bs);
 }
 static void bigstr_insch(size_t pos, size_t cnt, char c)
@@ -703,6 +725,58 @@ static void bigstr_erase(size_t pos, size_t n)
     cstl_string_erase(&BS, pos, n);
     memmove(bs_ref + pos, bs_ref + pos + n, bs_len - pos - n + 1); bs_len -= n;
     bigstr_audit("erase");
+}
+static void bigstr_reserve(size_t n)
+{
+    const size_t before = cstl_string_capacity(&BS);
+    size_t oldsz = 0;
+    /* data(), not str(): an empty string still has the buffer of an earlier reserve */
+    const void *const old = cstl_string_data(&BS) != NULL ? vrt_lib_block(cstl_string_data(&BS), &oldsz) : NULL;
+    CALL_BEGIN("string.reserve", "%ld (cap %ld, big)", n, before);
+    cstl_string_reserve(&BS, n);
+    if (cstl_string_capacity(&BS) != before) {
+        VRT_CHECK(cstl_string_capacity(&BS) >= n, "faults.bigstring.reserve.cap", "capacity %zu after reserve(%zu) from capacity %zu", cstl_string_capacity(&BS), n, before);
+        if (oldsz >= P_BIGBUF) COUNT("bigreserve.string.grew-from-big-buffer");
+    } else if (n > before) {
+        require_fired("string.reserve", "no growth"); count_fail("string.reserve");
+        big_reserve_kept("faults.bigstring.reserve.failed-call-released-storage", old, oldsz);
+        if (oldsz >= P_BIGBUF) { COUNT("bigreserve.string.failed-from-big-buffer"); if (bs_len == 0) COUNT("bigreserve.string.failed-from-big-buffer.empty-string"); }
+    }
+    bigstr_audit("reserve");
+}
+static void bigstr_resize0(void)
+{
+    CALL_BEGIN("string.resize", "0 (size %ld, big)", bs_len, 0);
+    /* a string that never got a buffer needs one for the terminator */
+    if (VRT_ABORTS(cstl_string_resize(&BS, 0))) { require_fired("string.resize", "abort"); count_fail("string.growth.abort"); }
+    else { bs_len = 0; bs_ref[0] = 0; }
+    bigstr_audit("resize");
+}
+/* reserve from a large block to a larger one: 100 KiB -> 128 KiB -> 256 KiB -> 1 MiB, vector and string, with content and empty */
+static void script_bigreserve(void)
+{
+    bv_size = 0;
+    memset(&BV, 0x5a, sizeof(BV));
+    cstl_vector_init(&BV, 4);
+    bigvec_resize(25000); bigvec_reserve(25600); bigvec_reserve(32768); bigvec_reserve(65536); bigvec_reserve(262144);
+    bigvec_shrink(); bigvec_reserve(100000);
+    if (bs_ref == NULL) bs_ref = vrt_alloc(400000);
+    bs_len = 0; bs_ref[0] = 0;
+    memset(&BS, 0x5a, sizeof(BS));
+    cstl_string_init(&BS);
+    bigstr_insch(0, 102000, 'a'); bigstr_reserve(102400); bigstr_reserve(131072); bigstr_ins(7, "0123456789"); bigstr_reserve(262144); bigstr_reserve(1048576);
+    bigstr_erase(100, 50000);
+    /* nothing worth keeping in the buffer */
+    bigstr_resize0(); bigstr_reserve(1100000); bigstr_insch(0, 300, 'z'); bigstr_reserve(1150000);
+}
+static void epilogue_bigreserve(void)
+{
+    bigvec_reserve(40000); bigvec_resize(30); bigvec_shrink();
+    cstl_vector_clear(&BV); bv_size = 0;
+    bigvec_audit("clear");
+    bigstr_reserve(150000); bigstr_insch(1, 500, 'e');
+    cstl_string_clear(&BS); bs_len = 0; bs_ref[0] = 0;
+    bigstr_audit("clear");
 }
 static void script_bigstring(void)
 {
@@ -1085,6 +1159,13 @@ static void p_fail(const char *what, const char *msg)
     snprintf(key, sizeof(key), "faults.memory.%s.%s", what, p_entry);
     vrt_fail(key, "%s (during %s)", msg, p_entry);
 }
+/* blocks past the allocator's thresholds (100 KiB .. 1 MiB): only both ends are written, the scripts run thousands of times */
+#define P_BIG ((size_t)100 << 10)
+static void p_fill(void *m, int c, size_t sz)
+{
+    if (sz < P_BIG) { memset(m, c, sz); return; }
+    memset(m, c, 512); memset((char *)m + sz - 512, c, 512);
+}
 static void p_clr(void *m, void *priv)
 {
     int b, hit = -1, released = 0;
@@ -1101,8 +1182,9 @@ static void p_clr(void *m, void *priv)
     if (!pb[hit].dying) p_fail("callback-for-memory-still-owned", "clear callback for memory that this call must not destroy");
     if (((unsigned char *)m)[0] != pb[hit].fill || ((unsigned char *)m)[pb[hit].sz - 1] != pb[hit].fill)
         p_fail("callback-content-changed", "the memory passed to the clear callback no longer holds what the client wrote");
-    memset(m, 0xa5, pb[hit].sz);
+    p_fill(m, 0xa5, pb[hit].sz);
     pb[hit].state = PB_CLEARED;
+    if (pb[hit].sz >= P_BIG) COUNT("pointers.big.clear-callback.checked");
     p_clears++;
     COUNT("pointers.clear-callback.checked");
 }
@@ -1114,7 +1196,7 @@ static int p_register(void *mem, size_t sz, int has_cb, void *priv, int shared)
     memset(x, 0, sizeof(*x));
     x->mem = mem; x->sz = sz; x->has_cb = has_cb; x->priv = priv; x->shared = shared; x->state = PB_LIVE; x->hard = 1;
     x->fill = (unsigned char)(0x10 + pb_n);
-    memset(mem, x->fill, sz);
+    p_fill(mem, x->fill, sz);
     return pb_n++;
 }
 static void p_drop_shared(int i)
@@ -1130,7 +1212,14 @@ static int p_call_end(void)
     for (b = 0; b < pb_n; b++) {
         if (!pb[b].dying) continue;
         if (pb[b].has_cb && pb[b].state != PB_CLEARED) p_fail("destroyed-without-callback", "memory with a clear callback was destroyed without calling it");
-        for (n = 0, e = 0; e < vrt_ev_n(); e++) if (vrt_ev(e)->kind == 'f' && vrt_ev(e)->p == pb[b].mem) n++;
+        /* free(old) or a realloc that took the old block over (success paths may be realloc or malloc+free); a realloc that was
+         * refused leaves the old block where it was: it still has to be freed by this call */
+        for (n = 0, e = 0; e < vrt_ev_n(); e++) {
+            const struct vrt_aev *ev = vrt_ev(e);
+            if (ev->p != pb[b].mem) continue;
+            if (ev->kind == 'f') n++;
+            else if (ev->kind == 'r' && !ev->failed) { n++; COUNT("pointers.previous-content.taken-over-by-realloc"); }
+        }
         if (n != 1) p_fail("previous-content-not-freed-once", "memory whose last owner went away was not freed exactly once inside the call");
         pb[b].dying = 0; pb[b].state = PB_DEAD;
         died++;
@@ -1151,11 +1240,27 @@ static void p_audit(const char *after)
         if (pb[b].state == PB_LIVE && (m[0] != pb[b].fill || m[pb[b].sz - 1] != pb[b].fill)) vrt_fail(key, "live memory no longer holds what the client wrote");
     }
 }
+/* old block of a failing big alloc: was it given back by the failing call itself, and how (event log) */
+static void p_big_failed(const char *what, int has_cb, int prev, size_t sz)
+{
+    char nm[64];
+    if (prev < 0 || measuring) return;
+    if (pb[prev].sz < P_BIG || sz < P_BIG) return;
+    /* p_call_end has already demanded "old block freed exactly once inside the failing call" (counter names <= 63 characters) */
+    snprintf(nm, sizeof(nm), "pointers.big.%s.failed-onto-occupied.%s", what, sz > pb[prev].sz ? "grow" : "shrink");
+    vrt_count_dyn(nm, 1);
+    snprintf(nm, sizeof(nm), "pointers.big.failed-onto-occupied.old-%s.new-%s", pb[prev].has_cb ? "cb" : "nocb", has_cb ? "cb" : "nocb");
+    vrt_count_dyn(nm, 1);
+}
+static int unique_alloc_m(size_t sz, int mode);
 static int unique_alloc(size_t sz)
 {
     /* bit 1: no callback, bit 0: NULL priv */
     static const unsigned char modes[2][6] = { { 0, 1, 2, 0, 3, 1 }, { 2, 0, 1, 3, 0, 2 } };
-    const int mode = modes[p_variant][p_usite % 6];
+    return unique_alloc_m(sz, modes[p_variant][p_usite % 6]);
+}
+static int unique_alloc_m(size_t sz, int mode)
+{
     const int has_cb = !(mode & 2), prev = pu_obj;
     void *const priv = (mode & 1) ? NULL : (void *)&p_cookie[p_usite % 8];
     const size_t live0 = vrt_lib_live();
@@ -1170,6 +1275,7 @@ static int unique_alloc(size_t sz)
     if (g != NULL) {
         require_not_fired("unique_ptr.alloc", "succeeded");
         pu_obj = p_register(g, sz, has_cb, priv, 0);
+        if (sz >= P_BIG && prev >= 0) COUNT("pointers.big.unique.alloc-onto-occupied");
         if (has_cb) COUNT("pointers.unique.alloc.with-callback"); else COUNT("pointers.unique.alloc.without-callback");
         if (priv != NULL) COUNT("pointers.unique.alloc.with-priv");
     } else {
@@ -1178,6 +1284,7 @@ static int unique_alloc(size_t sz)
         VRT_CHECK(vrt_lib_live() + (prev >= 0) <= live0, "faults.memory.failed-alloc-holds-memory.unique_ptr.alloc", "a failed alloc kept %zu library blocks (%zu before)", vrt_lib_live(), live0);
         if (has_cb) COUNT("pointers.failed-alloc.with-callback");
         if (prev >= 0) COUNT("pointers.unique.failed-alloc-onto-occupied");
+        p_big_failed("unique", has_cb, prev, sz);
         if (prev >= 0 && pb[prev].has_cb) COUNT("pointers.failed-alloc.previous-cleared-once");
     }
     p_audit("unique_ptr.alloc");
@@ -1217,9 +1324,11 @@ static void unique_release(void)
     }
     p_audit("unique_ptr.release");
 }
-static int shared_alloc(int i, size_t sz)
+static int shared_alloc_m(int i, size_t sz, int has_cb);
+static int shared_alloc(int i, size_t sz) { return shared_alloc_m(i, sz, ((p_ssite + p_variant) & 1) == 0); }
+static int shared_alloc_m(int i, size_t sz, const int has_cb)
 {
-    const int has_cb = ((p_ssite + p_variant) & 1) == 0, prev = ps_obj[i], occupied = prev >= 0;
+    const int prev = ps_obj[i], occupied = prev >= 0;
     const size_t live0 = vrt_lib_live();
     int died;
     void *g;
@@ -1233,6 +1342,7 @@ static int shared_alloc(int i, size_t sz)
     if (g != NULL) {
         require_not_fired("shared_ptr.alloc", "succeeded");
         ps_obj[i] = p_register(g, sz, has_cb, NULL, 1);
+        if (sz >= P_BIG && occupied) COUNT("pointers.big.shared.alloc-onto-occupied");
         if (has_cb) COUNT("pointers.shared.alloc.with-callback"); else COUNT("pointers.shared.alloc.without-callback");
     } else {
         require_fired("shared_ptr.alloc", "an empty pointer");
@@ -1240,6 +1350,8 @@ static int shared_alloc(int i, size_t sz)
         VRT_CHECK(vrt_lib_live() + (size_t)died <= live0, "faults.memory.failed-alloc-holds-memory.shared_ptr.alloc", "a failed alloc kept %zu library blocks (%zu before)", vrt_lib_live(), live0);
         if (has_cb) COUNT("pointers.failed-alloc.with-callback");
         if (occupied && died) COUNT("pointers.shared.failed-alloc-onto-last-owner");
+        if (occupied && died) p_big_failed("shared", has_cb, prev, sz);
+        if (occupied && !died && pb[prev].sz >= P_BIG) COUNT("pointers.big.shared.failed-alloc-onto-co-owned");
         if (occupied && died && pb[prev].has_cb) COUNT("pointers.failed-alloc.previous-cleared-once");
         if (occupied && !died) COUNT("pointers.shared.failed-alloc-onto-co-owned");
     }
@@ -1321,6 +1433,49 @@ static void script_pointers_body(void)
     unique_release();
     unique_alloc(7);        /* onto a pointer emptied by release: the released memory is the client's now */
 }
+/*
+ * The same pointers with blocks past the allocator's thresholds (100 KiB, 128 KiB, 256 KiB, 1 MiB): allocation onto an OCCUPIED
+ * pointer without a reset in between, growing and shrinking, every combination of "previous content has a clear callback" and
+ * "the request names one" (variant b flips all of them).  Oracles as above: a failing alloc leaves the pointer empty, destroys the
+ * previous content once (callback once if there is one) and the old block is given back by the failing call itself.
+ */
+#define KiB(n) ((size_t)(n) << 10)
+static void script_bigptr_body(void)
+{
+    /* mode bit 1: no callback, bit 0: NULL priv; f flips the callbacks */
+    const int f = p_variant ? 2 : 0, c = p_variant;
+    int i;
+    p_clears = 0; pb_n = 0; pu_obj = pw_obj = -1; p_usite = p_ssite = 0; p_entry = "none";
+    memset(&PU, 0x5a, sizeof(PU)); memset(&PW, 0x5a, sizeof(PW)); memset(PS, 0x5a, sizeof(PS));
+    cstl_unique_ptr_init(&PU); cstl_weak_ptr_init(&PW);
+    for (i = 0; i < 3; i++) { cstl_shared_ptr_init(&PS[i]); ps_obj[i] = -1; }
+    unique_alloc_m(KiB(100), 0 ^ f);
+    unique_alloc_m(KiB(128), 2 ^ f);        /* grow,   old cb,   new none */
+    unique_alloc_m(KiB(256), 3 ^ f);        /* grow,   old none, new none */
+    unique_alloc_m(KiB(1024), 1 ^ f);       /* grow,   old none, new cb */
+    unique_alloc_m(KiB(256), 0 ^ f);        /* shrink, old cb,   new cb */
+    unique_alloc_m(KiB(128), 2 ^ f);        /* shrink, old cb,   new none */
+    unique_alloc_m(KiB(100), 3 ^ f);        /* shrink, old none, new none */
+    unique_alloc_m(KiB(1024), 2 ^ f);       /* grow,   old none, new none */
+    unique_alloc_m(KiB(128), 0 ^ f);        /* shrink, old none, new cb */
+    unique_alloc_m(KiB(1024), 1 ^ f);       /* grow,   old cb,   new cb */
+    shared_alloc_m(0, KiB(100), !c);
+    shared_alloc_m(0, KiB(256), c);         /* grow,   old cb,   new none */
+    shared_alloc_m(0, KiB(1024), c);        /* grow,   old none, new none */
+    shared_alloc_m(0, KiB(128), !c);        /* shrink, old none, new cb */
+    shared_alloc_m(0, KiB(256), !c);        /* grow,   old cb,   new cb */
+    shared_alloc_m(0, KiB(128), c);         /* shrink, old cb,   new none */
+    shared_alloc_m(0, KiB(100), c);         /* shrink, old none, new none */
+    shared_alloc_m(0, KiB(1024), !c);
+    shared_share(0, 1);
+    shared_alloc_m(0, KiB(128), c);         /* co-owned: S1 keeps the 1 MiB block */
+    weak_from(1);
+    shared_alloc_m(1, KiB(256), !c);        /* last owner, a weak reference outstanding */
+    weak_lock(2);
+    shared_alloc_m(1, KiB(1024), c);
+}
+static void script_bigptr(void) { p_variant = 0; script_bigptr_body(); }
+static void script_bigptr_b(void) { p_variant = 1; script_bigptr_body(); }
 static void script_pointers(void) { p_variant = 0; script_pointers_body(); }
 static void script_pointers_b(void) { p_variant = 1; script_pointers_body(); }
 static void epilogue_pointers(void)
@@ -1346,24 +1501,61 @@ static void epilogue_pointers(void)
 /* ======================= arrays ======================= */
 static cstl_array_t AR[4];
 static char a_ext[5 * 4];
+#define A_BIGNM ((size_t)4096)
 static void arr_touch(cstl_array_t *a)
 {
     size_t i;
-    for (i = 0; i < cstl_array_size(a); i++) memset(cstl_array_at(a, i), 0x33, 4);
+    const size_t n = cstl_array_size(a);
+    if (n > A_BIGNM) {
+        /* big arrays: both ends and a sparse sample through at(), both ends of the storage directly (red zones) */
+        memset(cstl_array_at(a, 0), 0x33, 4); memset(cstl_array_at(a, n - 1), 0x33, 4);
+        for (i = 1; i < n; i += 4099) memset(cstl_array_at(a, i), 0x33, 4);
+        memset(cstl_array_data(a), 0x33, 256); memset((char *)cstl_array_data(a) + n * 4 - 256, 0x33, 256);
+        return;
+    }
+    for (i = 0; i < n; i++) memset(cstl_array_at(a, i), 0x33, 4);
 }
 static int arr_alloc(int i, size_t nm)
 {
+    /* the library block behind the object's current elements, and whether another object still shares it: a sole owner's
+     * storage has to go away when alloc is called onto it ("reset, then allocate") */
+    void *const d0 = cstl_array_data(&AR[i]);
+    size_t oldsz = 0;
+    void *const old = d0 != NULL ? vrt_lib_block(d0, &oldsz) : NULL;
+    int j, e, co_owned = 0, gone = 0;
+    for (j = 0; j < 4 && old != NULL; j++)
+        if (j != i && cstl_array_data(&AR[j]) != NULL && vrt_lib_block(cstl_array_data(&AR[j]), NULL) == old) co_owned = 1;
     CALL_BEGIN("array.alloc", "a%ld nm %ld", i, nm);
     cstl_array_alloc(&AR[i], nm, 4);
     if (cstl_array_data(&AR[i]) != NULL) {
         require_not_fired("array.alloc", "succeeded");
         VRT_CHECK(cstl_array_size(&AR[i]) == nm, "faults.array.alloc.size", "size %zu after alloc(%zu)", cstl_array_size(&AR[i]), nm);
+        if (nm > 0) {
+            size_t bs = 0;
+            const char *const d = cstl_array_data(&AR[i]), *const blk = vrt_lib_block(d, &bs);
+            VRT_CHECK(blk != NULL && d + nm * 4 <= blk + bs, "faults.array.alloc.storage", "alloc(%zu) of 4-byte elements has no storage of that size behind it", nm);
+        }
         arr_touch(&AR[i]);
+        if (nm > A_BIGNM && old != NULL) COUNT("arrays.big.alloc-onto-occupied");
         return 1;
     }
     require_fired("array.alloc", "an empty object");
     VRT_CHECK(cstl_array_size(&AR[i]) == 0, "faults.array.alloc.failed-not-empty", "failed allocation left size %zu", cstl_array_size(&AR[i]));
     count_fail("array.alloc");
+    if (old != NULL && !co_owned) {
+        /* the previous content was given back by the failing call itself (free, or a realloc that took the block over) */
+        for (e = 0; e < vrt_ev_n(); e++) {
+            const struct vrt_aev *ev = vrt_ev(e);
+            if (ev->p == old && (ev->kind == 'f' || (ev->kind == 'r' && !ev->failed))) gone++;
+        }
+        VRT_CHECK(gone == 1, "faults.array.alloc.previous-storage-not-freed-in-call",
+                  "a failed alloc onto an object that alone held an allocation freed that allocation %d times inside the call", gone);
+        COUNT("arrays.failed-alloc-onto-sole-owner.old-block-freed-in-call");
+        if (nm > A_BIGNM && oldsz > A_BIGNM * 4) { if (nm * 4 > oldsz) COUNT("arrays.big.failed-alloc-onto-sole-owner.grow"); else COUNT("arrays.big.failed-alloc-onto-sole-owner.shrink"); }
+    } else if (old != NULL) {
+        VRT_CHECK(vrt_lib_block(old, NULL) == old, "faults.array.alloc.sharer-storage-freed", "a failed alloc freed storage that another array object still uses");
+        if (nm > A_BIGNM && oldsz > A_BIGNM * 4) COUNT("arrays.big.failed-alloc-onto-co-owned");
+    }
     return 0;
 }
 static char a_ext2[6 * 4];
@@ -1416,6 +1608,25 @@ static void script_arrays(void)
     arr_set(1, a_ext, 5);
     arr_set(0, a_ext, 5);
 }
+/* arrays of 100 KiB, 128 KiB, 256 KiB and 1 MiB: alloc onto an occupied object (sole owner, co-owned, in-place slice, external buffer) */
+static void script_bigarrays(void)
+{
+    int i, have;
+    memset(AR, 0x5a, sizeof(AR));
+    for (i = 0; i < 4; i++) cstl_array_init(&AR[i]);
+    arr_alloc(0, 25600); arr_alloc(0, 32768); arr_alloc(0, 65536); arr_alloc(0, 262144);
+    arr_alloc(0, 65536); arr_alloc(0, 32768); arr_alloc(0, 25600);
+    have = arr_alloc(0, 262144);
+    if (have) { VRT_OP0("array.slice", "a0[1000,200000) -> a1"); cstl_array_slice(&AR[0], 1000, 200000, &AR[1]); arr_touch(&AR[1]); }
+    arr_alloc(0, 32768);                /* co-owned: a1 keeps the 1 MiB block */
+    if (have) { arr_touch(&AR[1]); VRT_CHECK(cstl_array_size(&AR[1]) == 199000, "faults.array.sharer-lost", "sharer changed"); }
+    arr_alloc(1, 65536);                /* a slice with an offset, last owner of the 1 MiB block */
+    if (cstl_array_size(&AR[1]) == 65536) { VRT_OP0("array.slice", "a1[10,60000) in place"); cstl_array_slice(&AR[1], 10, 60000, &AR[1]); arr_touch(&AR[1]); }
+    arr_alloc(1, 262144);               /* grow from an in-place slice */
+    arr_set(1, a_ext, 5);               /* external buffer onto a big allocation */
+    arr_alloc(1, 25600);
+    arr_alloc(0, 131072);
+}
 static void epilogue_arrays(void)
 {
     void *b = NULL;
@@ -1444,6 +1655,11 @@ static const struct script scripts[] = {
     { "vector-e300", script_bigelem_300, epilogue_bigelem, 6 },
     { "vector-e4097", script_bigelem_4097, epilogue_bigelem, 6 },
     { "vector-e6000", script_bigelem_6000, epilogue_bigelem, 6 },
+    /* sizes past the allocator's thresholds (appended: the case numbering of the scripts above stays what it was) */
+    { "arrays-big", script_bigarrays, epilogue_arrays, 40 },
+    { "bigreserve", script_bigreserve, epilogue_bigreserve, 40 },
+    { "pointers-big", script_bigptr, epilogue_pointers, 40 },
+    { "pointers-big-b", script_bigptr_b, epilogue_pointers, 40 },
 };
 #define NSCRIPT ((int)(sizeof(scripts) / sizeof(scripts[0])))
 static uint64_t Nalloc[NSCRIPT];
@@ -1606,7 +1822,19 @@ static const char *const required[] = {
     /* big elements: scratch space, calls without a failure mode with no memory at all */
     "bigelem.nomem.calls", "bigelem.sort.checked", "bigelem.sort.own-swap-used", "bigelem.reverse.checked", "bigelem.search.checked",
     "bigelem.swap.scratch-checked", "bigelem.nofail-call.capacity-equals-size", "bigelem.ctor.checked-after-failed-call",
-    "bigelem.audit.after-failed-call", NULL
+    "bigelem.audit.after-failed-call",
+    /* sizes past the allocator's thresholds: alloc onto an occupied pointer/array, reserve from a large block to a larger one */
+    "pointers.big.unique.alloc-onto-occupied", "pointers.big.shared.alloc-onto-occupied", "pointers.big.clear-callback.checked",
+    "pointers.big.unique.failed-onto-occupied.grow", "pointers.big.unique.failed-onto-occupied.shrink",
+    "pointers.big.shared.failed-onto-occupied.grow", "pointers.big.shared.failed-onto-occupied.shrink",
+    "pointers.big.failed-onto-occupied.old-cb.new-cb", "pointers.big.failed-onto-occupied.old-cb.new-nocb",
+    "pointers.big.failed-onto-occupied.old-nocb.new-cb", "pointers.big.failed-onto-occupied.old-nocb.new-nocb",
+    "pointers.big.shared.failed-alloc-onto-co-owned",
+    "arrays.big.alloc-onto-occupied", "arrays.failed-alloc-onto-sole-owner.old-block-freed-in-call",
+    "arrays.big.failed-alloc-onto-sole-owner.grow", "arrays.big.failed-alloc-onto-sole-owner.shrink", "arrays.big.failed-alloc-onto-co-owned",
+    "bigreserve.vector.grew-from-big-buffer", "bigreserve.vector.failed-from-big-buffer",
+    "bigreserve.string.grew-from-big-buffer", "bigreserve.string.failed-from-big-buffer", "bigreserve.string.failed-from-big-buffer.empty-string",
+    "bigreserve.failed-from-big-buffer.old-buffer-untouched", NULL
 };
 static const struct vrt_harness H = { "faults", ncases, run_case, winit, NULL, required, 16 };
 int main(int argc, char **argv) { return vrt_main(argc, argv, &H); }
